@@ -190,6 +190,9 @@ impl SendRateComp {
         let loss_rate = feedback.loss_rate;
         let rate_limited = feedback.rate_limited;
 
+        #[cfg(uflow_verif)]
+        let (verif_rtt_before, verif_x_before, verif_mode_before) = (self.rtt_s, self.send_rate, self.verif_mode_tag());
+
         let (rtt_s, rtt_ms) = self.update_rtt(rtt_sample_s);
         let rto_s = self.update_rto(rtt_s, self.send_rate);
 
@@ -281,9 +284,27 @@ impl SendRateComp {
         // Restart nofeedback timer
         self.nofeedback_exp_ms = Some(now_ms + s_to_ms(rto_s));
         self.nofeedback_idle = true;
+
+        #[cfg(uflow_verif)]
+        crate::verif::trace::emit(crate::verif::trace::Event::Feedback {
+            now_ms,
+            rtt_sample_ms: feedback.rtt_ms,
+            receive_rate: recv_rate,
+            loss_rate,
+            rate_limited,
+            rtt_before_s: verif_rtt_before,
+            rtt_after_s: rtt_s,
+            x_before: verif_x_before,
+            x_after: self.send_rate,
+            mode_before: verif_mode_before,
+            mode_after: self.verif_mode_tag(),
+        });
     }
 
     fn nofeedback_expired(&mut self, now_ms: u64) {
+        #[cfg(uflow_verif)]
+        let (verif_x_before, verif_mode) = (self.send_rate, self.verif_mode_tag());
+
         /*
         Section 4.4, step 1, can be de-mangled into the following:
 
@@ -362,6 +383,11 @@ impl SendRateComp {
 
         self.nofeedback_exp_ms = Some(now_ms + s_to_ms(rto_s));
         self.nofeedback_idle = true;
+
+        #[cfg(uflow_verif)]
+        crate::verif::trace::emit(crate::verif::trace::Event::NoFeedbackExpired {
+            now_ms, x_before: verif_x_before, x_after: self.send_rate, mode: verif_mode
+        });
     }
 
     fn update_rtt(&mut self, rtt_sample_s: f64) -> (f64, u64) {
